@@ -1,7 +1,10 @@
 import I18n.Model.Mo
+import I18n.Generated.MoParser
 import I18n.Driver.Util
 /- Driver for the MO parser model.
-   `mo parse <enc|-> <file-hex|-> <oracle|->`  and  `mo check <file-hex|-> <oracle|->`.
+   `mo parse <enc|-> <file-hex|-> <oracle|->`  and  `mo check <file-hex|-> <oracle|->`;
+   `mo gparse <enc|-> <file-hex|-> <oracle|->` runs the definition REGENERATED from lib/moparser.py
+   (`Generated.MoParser.parse`, tools/translate/mo2lean.py) instead of the hand-written model.
    The oracle lists the encoding names for which `is_ascii_compatible_encoding` is true, each with the
    codec family the harness found for it by asking Python directly: `<name-hex>:<a|l|u|m…>,…`
    (`a` ASCII, `l` ISO-8859-1, `u` UTF-8, `m<256 code points>` a single-byte charmap; names outside the
@@ -95,6 +98,8 @@ def showCrash : Crash → String
   | .unpackValueError => "ValueError"
   | .typeError => "TypeError"
   | .assertion => "AssertionError"
+  | .indexError => "IndexError"
+  | .other name => name
 
 def showErr : Err → String
   | .syntax e => s!"err syntax {showSyn e}"
@@ -123,6 +128,12 @@ def handle (op : String) (args : List String) : String :=
     let db := mkDb (parseOracle oracle)
     let enc := if enc == "-" then none else some (unhex enc)
     match parse db enc (unhexOpt file) with
+    | .ok f => "ok " ++ showFile f
+    | .error e => showErr e
+  | "gparse", [enc, file, oracle] =>
+    let db := mkDb (parseOracle oracle)
+    let enc := if enc == "-" then none else some (unhex enc)
+    match I18n.Generated.MoParser.parse db enc (unhexOpt file) with
     | .ok f => "ok " ++ showFile f
     | .error e => showErr e
   | "check", [file, oracle] =>
